@@ -233,6 +233,23 @@ def check_vec(ctx, config, rule):
             ra = [t for t, _ in arena.alternatives(I, r.ret, set())]
             okv = bool(oks) and all(t[0] == 'agg' and (t[2] == 'None' or (t[2] == 'Some' and field_of(t, '0') in oks)) for t in ra) and {t[2] for t in ra} == {'None', 'Some'} \
                 and 'Result<' in (cc[0].callee or '')
+        if not okv and len(cc) == 1 and cc[0].args[1] == ('param', 2) and not okc and r.ret is not None and 'Result<' not in (cc[0].callee or '') + repr(cc[0].extra.get('callee') or ''):
+            # implemented directly, with the skeleton of the Result impl: an adapter that passes the items through, raises a flag at
+            # the first None (which also ends the inner iteration), and the result is None exactly when the flag was raised
+            cl = [x for x in db.fn_bodies() if x['kind'] == 'closure' and x['id'].startswith(b['id'])]
+            ra = [(t, fs) for t, fs in arena.alternatives(I, r.ret, set(r.ret_state.facts) if r.ret_state else set())]
+            shape = {t[2] for t, _ in ra if t[0] == 'agg'} == {'None', 'Some'} and all(t[2] == 'None' or field_of(t, '0') == cc[0].ret for t, _ in ra if t[0] == 'agg')
+            adapter = False
+            if len(cl) == 1:
+                I2, r2 = arena.run_fn(ctx, cl[0]['id'], config)
+                nx = [e for e in r2.events if e.kind == 'call' and (e.extra.get('trait_path') or e.callee or '').endswith('Iterator::next')]
+                st = [e for e in r2.events if e.kind == 'store' and e.val == ('c', 1)]
+                # the adapter returns exactly what the inner iterator yielded (item itself: Some(x) -> Some(x), None -> None), or None at its end
+                alts2 = [t for t, _ in arena.alternatives(I2, r2.ret, set())] if r2.ret is not None else []
+                passes = len(nx) == 1 and all(t == NONE or t == ('app', 'payload', nx[0].ret) or t == ('app', 'vproj', nx[0].ret, 'Some', '0') for t in alts2) and any(t != NONE for t in alts2)
+                flagged = len(st) == 1 and any(f[0] in ('true', 'is') and ('is_none' in repr(f) or f[-1] == 'None') for f in st[0].state.facts)
+                adapter = passes and flagged
+            okv = shape and adapter
         C.check('FromIteratorIn for Option', 'collects ok_or(()) items as a Result and returns .ok() of it', okv, '', b.get('span'))
     ctx.floor(rule, C.n, 17, 'composition clauses for Vec trait impls and collect_in')
 
